@@ -199,7 +199,7 @@ static void runCase(const std::string& mode, const std::string& choiceTxt, const
     OSnap prev = s1; std::string prevBytes; std::unique_ptr<C3D> cur = std::move(G1);
     for (int g = 2; g <= generations; ++g) {
         std::string pf = dir + "/g" + std::to_string(g) + ".c3d";
-        writeAll(pf, std::string(bytes.size() + 4096, (char)0xAB));   // the destination already exists and is LONGER than what will be saved
+        writeAll(pf, std::string(bytes.size() + 4096 + 1000 * (size_t)g, (char)(0xA0 + g)));   // the destination already exists and is LONGER than what will be saved (different leftovers per generation)
         oc = guarded([&] { cur->write(pf); }, &what);
         if (oc != OK) { out.viol.push_back({std::string("C04|save_throws/gen") + std::to_string(g) + "/" + outcomeName(oc), what}); out.outcome = "save-throws"; return; }
         std::string fb; readAll(pf, fb); out.transcript += " gen" + std::to_string(g) + "=" + hashStr(fb).hex();
